@@ -39,6 +39,7 @@ type Engine struct {
 	seed           int
 	need           int
 	stale          []string
+	staleTagged    []staleSpec
 	globalIDs      map[*ssa.Global]int
 	curProp        string
 	scopeKinds     map[*ssa.Function][]string
@@ -244,7 +245,10 @@ func (e *Engine) loadSpecs(externDir string) error {
 			}
 			name, err := e.resolveFuncKey(sf.Pkg, f.Key, f.Extern)
 			if err != nil {
-				e.stale = append(e.stale, fmt.Sprintf("%s: %v", f.Line, err))
+				// a function under contract that no longer exists: its clauses cannot be checked.  That is
+				// a finding only for the properties those clauses belong to (e.staleTagged); a contract
+				// without tagged clauses (a helper's frame, an inline marker) simply lapses.
+				e.staleTagged = append(e.staleTagged, staleSpec{msg: fmt.Sprintf("%s: %v", f.Line, err), spec: f})
 				continue
 			}
 			if old, dup := db.funcs[name]; dup {
@@ -962,4 +966,9 @@ func (e *Engine) ghostRelevant(name string) bool {
 		name = name[:i]
 	}
 	return e.relevantGhosts[name]
+}
+
+type staleSpec struct {
+	msg  string
+	spec *FuncSpec
 }
